@@ -57,6 +57,9 @@ pub(crate) struct DhtHandler {
     refresh_started: bool,
     // Ongoing TableLookups.
     lookups: HashMap<ActionID, TableLookup>,
+    // Whether the initial bootstrap has completed, and the lookups requested before that.
+    bootstrapped_once: bool,
+    queued_lookups: Vec<StartLookup>,
 }
 
 impl DhtHandler {
@@ -102,6 +105,8 @@ impl DhtHandler {
             refresh: table_refresh,
             refresh_started: false,
             lookups: HashMap::new(),
+            bootstrapped_once: false,
+            queued_lookups: Vec::new(),
         }
     }
 
@@ -439,10 +444,22 @@ impl DhtHandler {
             self.refresh_started = true;
             self.handle_check_table_refresh().await;
         }
+
+        // Start the lookups that were requested before the initial bootstrap completed.
+        self.bootstrapped_once = true;
+        for lookup in std::mem::take(&mut self.queued_lookups) {
+            self.handle_start_lookup(lookup).await;
+        }
     }
 
     async fn handle_start_lookup(&mut self, lookup: StartLookup) {
-        // Start the lookup right now if not bootstrapping
+        // The routing table is empty until the initial bootstrap has completed and a lookup
+        // started on it would end at once with no result: queue it (see `MainlineDht::search`).
+        if !self.bootstrapped_once {
+            self.queued_lookups.push(lookup);
+            return;
+        }
+
         let mid_generator = self.aid_generator.generate();
         let action_id = mid_generator.action_id();
 
